@@ -16,7 +16,7 @@ import numpy as np
 PROP = 'C08'
 GENERATED = ['PhaseOrder', 'LoopFacts']
 DRIVER = 'Drivers/C08.lean'
-DRIVER_MODULES = ['StarsimModel.Model.Loop', 'StarsimModel.Model.Proto']
+DRIVER_MODULES = ['StarsimModel.Model.Loop', 'StarsimModel.Model.LoopInstant', 'StarsimModel.Model.Proto']
 RULE = ('module sets: 0-2 probe modules per container kind (demographics, networks, diseases, connectors, interventions '
         '(optionally with a product), analyzers) plus optionally real SIS/RandomNet/Deaths; sim unit in year/day/week/month/'
         'unitless with numeric or date start; every module draws its own unit/dt/start/stop (same unit with dt ratio and '
@@ -165,11 +165,11 @@ def gen_case(rng, force_real=None):
     r = rng.random()
     if r < 0.45:
         unit = 'year'; dt = rng.choice([1.0, 0.5, 0.25, 0.2, 1 / 12, 0.1])
-        start = rng.choice([2000, 1995, 2010.5, 2000.25]); npts = rng.randint(2, 8)
+        start = rng.choice([2000, 1995, 2010.5, 2000.25, 2003, 2099.5]); npts = rng.randint(2, 8)
         simt = dict(unit=unit, dt=dt, start=start, dur=round(dt * npts, 6))
     elif r < 0.60:
         unit = 'year'; dt = rng.choice([0.25, 0.5, 1 / 12, 0.1])
-        simt = dict(unit=unit, dt=dt, start=rng.choice(['2000-01-01', '2001-03-01']), dur=round(dt * rng.randint(2, 8), 6))
+        simt = dict(unit=unit, dt=dt, start=rng.choice(['2000-01-01', '2001-03-01', '2003-07-01', '2023-12-30']), dur=round(dt * rng.randint(2, 8), 6))
     elif r < 0.85:
         unit = rng.choice(['day', 'day', 'week', 'month'])
         dt = rng.choice(dict(day=[1, 2, 7, 5], week=[1, 2], month=[1, 1, 2])[unit])
@@ -243,6 +243,15 @@ def scenarios():
         dict(sim=Y, mods=[m('PInt', 'people', unit='year', dt=0.5)]),
         # month-unit sim with a daily module (known finding C08-month-sim-mean-month-length)
         dict(sim=dict(unit='month', dt=1, start='2020-02-15', dur=3), mods=[m('PInt', 'daily', unit='day', dt=1, start='2020-02-22')]),
+        # year sims whose day / week / month modules run through years of DIFFERENT length (ordinary -> leap -> ordinary, leap
+        # first, the non-leap century year), daily modules across 31 December / 1 January, sim instants that fall on a
+        # module's date away from 1 January (2004.5 = 2004-07-02)
+        dict(sim=dict(unit='year', dt=0.5, start='2003-01-01', dur=3.0), mods=[m('PInt', 'dy', unit='day', dt=1), m('PDis', 'wk', unit='week', dt=1),
+                                                                                m('PAna', 'mo', unit='month', dt=1), m('PCon', 'd73', unit='day', dt=73), m('PNet', 'net')]),
+        dict(sim=dict(unit='year', dt=0.25, start=2000, dur=2.0), mods=[m('PCon', 'dy', unit='day', dt=1), m('PDem', 'w2', unit='week', dt=2), m('PDis', 'dis'),
+                                                                         m('PInt', 'late', unit='day', dt=5, start='2000-12-27', stop='2001-01-11')]),
+        dict(sim=dict(unit='year', dt=0.5, start='2099-07-01', dur=2.0), mods=[m('PInt', 'd10', unit='day', dt=10), m('PAna', 'mo', unit='month', dt=1),
+                                                                                  m('PDis', 'dy', unit='day', dt=1, start='2100-12-20', stop='2101-01-10')]),
     ]
     for i, c in enumerate(out):
         c.setdefault('n_agents', 20); c.setdefault('rand_seed', i)
@@ -365,14 +374,16 @@ def run_recorded(sim, desc):
             vec = clock_owner.t.abstvec
             sched = float(vec[ti]) if 0 <= ti < len(vec) else None
             cal[0].append(calendar_of(sim, clock_owner, ti))
+            inst[0].append(instant_of(sim, clock_owner, ti, desc.get('sim_start')))
             rec.append((float(t), int(o), oi, int(ti), sched, nm, 'people' if owner is sim.people else None))
             return f()
         return w
-    cal = [[]]
+    cal = [[]]; inst = [[]]
     plan['func'] = [wrap(f, t, o, nm) for f, t, o, nm in zip(funcs, times, orders, names)]
     sim.run()
     final = [int(o.t.ti) for o in [sim] + mods]
     desc['calendar'] = cal[0]
+    desc['instant'] = inst[0]
     return rec, final
 
 
@@ -393,6 +404,112 @@ def calendar_of(sim, owner, ti):
     return None
 
 
+# ---------------------------------------------------------------------------
+# the instant a clock reading denotes on the sim's time axis, by the harness's OWN arithmetic (datetime + fractions):
+# never reads abstvec / Loop.plan, never calls starsim's or sciris' date conversions
+
+MEAN_DAYS = dict(day=1.0, week=7.0, month=30.4375, year=365.25)
+
+
+def _is_leap(y):
+    return y % 4 == 0 and (y % 100 != 0 or y % 400 == 0)
+
+
+def _pydate(d):
+    """ (datetime.date, exact?) of a date-like clock reading; None if it is no calendar date """
+    import datetime as dt
+    try:
+        exact = not (getattr(d, 'hour', 0) or getattr(d, 'minute', 0) or getattr(d, 'second', 0))
+        return dt.date(int(d.year), int(d.month), int(d.day)), exact
+    except Exception:
+        return None
+
+
+def year_of_date(d):
+    """ Calendar date -> calendar year number: year + (days since 1 January) / (length of THAT year) """
+    import datetime as dt
+    n = 366 if _is_leap(d.year) else 365
+    return d.year + (d - dt.date(d.year, 1, 1)).days / n
+
+
+def reading_of(owner, ti):
+    """ What the owner's own clock reads at index ti, in the owner's own terms:
+        ('num', x) numeric owners (their own unit), ('year', y) date-based year-unit owners (the year vector is their
+        ground truth), ('date', datetime.date) date-based day/week/month owners """
+    t = owner.t
+    if not (0 <= ti < t.npts):
+        return None
+    try:
+        if t.is_unitless or t.is_numeric:
+            return ('num', float(t.timevec[ti]))
+        if t.unit == 'year':
+            return ('year', float(t.yearvec[ti]))
+        pd_ = _pydate(t.datevec[ti])
+        if pd_ is None or not pd_[1]:
+            return None
+        return ('date', pd_[0])
+    except Exception:
+        return None
+
+
+def instant_of(sim, owner, ti, sim_start):
+    """ (instant on the sim's axis in sim units since the sim's start, tolerance, reading shown, month-sim?) denoted by
+        the owner's own clock at index ti — or None where owner and sim share no scale this harness can convert
+        (recorded by the caller as `instant_unchecked`). sim_start = the sim's `start` as the USER gave it. """
+    import datetime as dt
+    r = reading_of(owner, ti)
+    if r is None or sim_start is None:
+        return None
+    eps = 1e-6
+    su = sim.t.unit
+    kind, v = r
+    sim_numeric = not isinstance(sim_start, str)
+    try:
+        if kind == 'num':
+            if not sim_numeric or owner.t.unit != su:
+                return None
+            return (v - float(sim_start), 1.5 * eps, f'{v:.6f}', False)
+        if su == 'year':
+            if sim_numeric:
+                if float(sim_start) == 0: return None          # numeric 0 stands for a default calendar start
+                y0 = float(sim_start)
+            else:
+                y0 = year_of_date(dt.date.fromisoformat(sim_start))
+            y = v if kind == 'year' else year_of_date(v)
+            return (y - y0, 1.5 * eps, f'{v:.6f}' if kind == 'year' else v.isoformat(), False)
+        if su in ('day', 'week', 'month'):
+            if sim_numeric:
+                return None
+            d0 = dt.date.fromisoformat(sim_start)
+            if kind == 'year':
+                # a year reading has no exact day: nearest day, tolerance one day
+                yy = int(math.floor(v)); n = 366 if _is_leap(yy) else 365
+                d = dt.date(yy, 1, 1) + dt.timedelta(days=int(round((v - yy) * n)))
+                tol = 1.0 / MEAN_DAYS[su] + eps
+            else:
+                d = v; tol = 1.5 * eps
+            days = (d - d0).days
+            if su == 'month':
+                return (month_axis(sim, d0, d), tol, f'{v:.6f}' if kind == 'year' else v.isoformat(), True)
+            return (days / MEAN_DAYS[su], tol, f'{v:.6f}' if kind == 'year' else v.isoformat(), False)
+    except Exception:
+        return None
+    return None
+
+
+def month_axis(sim, d0, d):
+    """ Month-unit sims: the sim dates its own k-th point `start + k*dt calendar months`; the instant of a date is read
+        on THAT axis (linear within a calendar step, mean-length months outside the sim's span) """
+    pts = [_pydate(x)[0] for x in sim.t.datevec]
+    dtm = float(sim.t.dt)
+    if d <= pts[0]:
+        return (d - pts[0]).days / MEAN_DAYS['month']
+    for k in range(len(pts) - 1):
+        if pts[k] <= d < pts[k + 1]:
+            return (k + (d - pts[k]).days / (pts[k + 1] - pts[k]).days) * dtm
+    return (len(pts) - 1) * dtm + (d - pts[-1]).days / MEAN_DAYS['month']
+
+
 def rerun_after_completion(sim, mods):
     """ Redundant run() / run_one_step() on the completed sim: clocks must keep reading their final index """
     out = []
@@ -402,6 +519,30 @@ def rerun_after_completion(sim, mods):
         except Exception:
             pass
         out.append((name, [int(o.t.ti) for o in [sim] + mods]))
+    return out
+
+
+def instant_lines(sim, desc, case):
+    """ `inst` driver lines for the date-based day/week/month owners of a year-unit sim: (line, case, owner name, code's abstvec in eps) """
+    import datetime as dt
+    out = []
+    if sim.t.unit != 'year':
+        return out
+    y0, err = to_eps(sim.t.yearvec[0], desc['eps'])
+    if err > 1e-3:
+        return out
+    for i, m in enumerate(desc['mods']):
+        t = m.t
+        if t.is_numeric or t.is_unitless or t.unit not in ('day', 'week', 'month') or t.npts == 0:
+            continue
+        rs = []
+        for d in t.datevec:
+            pd_ = _pydate(d)
+            if pd_ is None or not pd_[1]:
+                rs = None; break
+            rs.append(f'{pd_[0].year}:{(pd_[0] - dt.date(pd_[0].year, 1, 1)).days}')
+        if rs:
+            out.append((f'inst {y0} ' + ','.join(rs), case, m.name, list(desc['tvecs'][i + 1])))
     return out
 
 
@@ -430,7 +571,9 @@ def prepare(case):
         warnings.simplefilter('ignore')
         sim = build(case)
         sim.init()
-    return sim, describe(sim)
+    desc = describe(sim)
+    desc['sim_start'] = case['sim'].get('start')
+    return sim, desc
 
 
 def separated(desc, nfuncs):
@@ -456,6 +599,7 @@ def correspond(ctx):
     cases = corpus + scenarios() + cases
     prepared = []
     lines = []
+    inst_cases = []
     for case in cases:
         try:
             sim, desc = prepare(case)
@@ -482,7 +626,30 @@ def correspond(ctx):
             continue
         prepared.append((case, desc, funcs, rec, final, nplan))
         lines.append(model_line(desc))
-    out = ctx.drive(DRIVER, lines) if lines else []
+        inst_cases.extend(instant_lines(sim, desc, case))
+    out = ctx.drive(DRIVER, lines + [x[0] for x in inst_cases]) if lines else []
+    # calendar clocks in year sims: the code's time vector of every date-based day/week/month owner against
+    # Model/LoopInstant.lean applied to the dates its clock shows
+    for (line, case, name, impl), ml in zip(inst_cases, out[len(lines):]):
+        ctx.count('instant_vectors')
+        ctx.count('instant_points', len(impl))
+        div = None
+        if not ml.startswith('ok '):
+            div = f'model answered {ml[:80]}'
+        else:
+            kv = dict(p_.split('=', 1) for p_ in ml.split(' ')[1:])
+            mv = [int(x) for x in kv['v'].split(',')] if kv.get('v', '-') not in ('-', '') else []
+            if kv.get('inc') != '1':
+                div = f'the dates shown by the clock of {name} are not strictly increasing existing days'
+            elif mv != impl:
+                k = next((i for i, (a, b) in enumerate(zip(mv, impl)) if a != b), min(len(mv), len(impl)))
+                div = (f'time vector of {name}: point {k} (clock reads {line.split(" ")[2].split(",")[k] if k < len(impl) else "-"} as year:day-of-year) '
+                       f'impl={impl[k] if k < len(impl) else None} eps, model={mv[k] if k < len(mv) else None} eps')
+        if div:
+            ctx.broke('correspondence', 'C08.instant', f'a date-based owner\'s time vector in a year sim diverges from Model/LoopInstant.lean: {div}',
+                      data=dict(case=case, model=ml[:300]))
+            break
+    out = out[:len(lines)]
     for (case, desc, funcs, rec, final, nplan), ml in zip(prepared, out):
         div = compare(desc, funcs, rec, final, ml, rows)
         nontrivial = any(tv != desc['tvecs'][0] for tv in desc['tvecs'][1:])
@@ -550,8 +717,10 @@ def compare(desc, funcs, rec, final, ml, rows):
 # which symptoms each recorded defect of the unchanged tree can produce; any other symptom in such a configuration is a VIOLATION
 CONSEQUENCES = {
     'timepoints-closer-than-eps-x-nfuncs': ('time-order', 'phase-order', 'clock', 'calendar-order', 'calendar-order-month'),
-    'module-names-collide': ('multiplicity', 'clock', 'final-clock', 'calendar-order', 'calendar-order-month', 'time-order', 'run-raised'),
+    'module-names-collide': ('multiplicity', 'clock', 'final-clock', 'calendar-order', 'calendar-order-month', 'time-order', 'run-raised',
+                             'own-instant', 'own-instant-month'),
 }
+STATS = {}
 
 
 def oracle_case(case):
@@ -598,6 +767,7 @@ def oracle_case(case):
         return [dict(signature=sig, what=f'run of an accepted configuration raised {type(e).__name__}: {e}')]
     eps = desc['eps']
     prev_t = None; prev_phase = None; prev_cal = None; prev_lab = None
+    checked = unchecked = 0
     for idx, (t, o, oi, ti, sched, nm, ppl) in enumerate(rec):
         tk, _ = to_eps(t, eps)
         key = (oi, ppl == 'people', nm, tk)
@@ -620,6 +790,20 @@ def oracle_case(case):
         if sched is None or to_eps(sched, eps)[0] != tk:
             fails.append(('clock', f'call #{idx} {lab} scheduled at t={t}: owner clock ti={ti} denotes '
                                    f'{"no time point" if sched is None else sched} instead'))
+        # the instant the caller's OWN clock reading denotes (re-derived here from the reading alone: a date, a year, a
+        # number of own units) IS the scheduled instant
+        ins = desc['instant'][idx]
+        if ins is None:
+            unchecked += 1
+        else:
+            ref, tol, shown_r, month_sim = ins
+            checked += 1
+            if abs(ref - t) > tol:
+                kind_ = 'own-instant'
+                if month_sim and abs(ref - t) <= 4 / MEAN_DAYS['month'] + tol:
+                    kind_ = 'own-instant-month'         # recorded defect: calendar months (dates) vs mean-length months (abstvec)
+                fails.append((kind_, f'call #{idx} {lab} is scheduled at t={t:.6f} (sim units since the sim\'s start) while its own clock '
+                                     f'(ti={ti}) reads {shown_r}, which is t={ref:.6f}'))
         # the executed schedule read on the callers' OWN clocks (dates / calendar years) never goes backwards
         c = desc['calendar'][idx]
         if c is not None and prev_cal is not None and c[0] == prev_cal[0]:
@@ -632,6 +816,8 @@ def oracle_case(case):
                 fails.append((kind_, f'call #{idx} {lab}, whose own clock reads {shown(c[1])}, runs after {prev_lab}, whose own clock read {shown(prev_cal[1])}'))
         if c is not None:
             prev_cal, prev_lab = c, lab
+    STATS['instant_checked'] = STATS.get('instant_checked', 0) + checked
+    STATS['instant_unchecked'] = STATS.get('instant_unchecked', 0) + unchecked
     bad = [k for k, n in expected.items() if n != 1]
     if bad:
         k = bad[0]
@@ -649,7 +835,7 @@ def oracle_case(case):
         if what in seen: continue
         seen.add(what)
         c = cause if what in CONSEQUENCES.get(cause, ()) else 'none'
-        if what == 'calendar-order-month' and c == 'none':
+        if what in ('calendar-order-month', 'own-instant-month') and c == 'none':
             c = 'month-sim-mean-month-length'
         sig = dict(oracle='schedule', cause=c)
         if c == 'none':
@@ -696,6 +882,8 @@ def search(ctx):
         if fails is None:
             ctx.count('oracle_rejected'); continue
         ctx.count('oracle_runs')
+        for k_ in list(STATS):
+            ctx.count('oracle_' + k_, STATS.pop(k_))
         for f in fails:
             ctx.fail(f['signature'], f['what'], dict(kind='case', case=case))
 
